@@ -68,14 +68,14 @@ Variable mt : metrics.
 Variable bursts : list (N * list (N * N)).
 Hypothesis Hjit : m_jit mt = 0.
 
-Notation send := (send_message current tx mt).
-Notation drain := (Model.drain current tx mt).
-Notation unbusy := (Model.unbusy current tx mt).
-Notation offer := (Model.offer current tx mt).
-Notation handle_wake := (Model.handle_wake current tx mt bursts).
-Notation dispatch := (Model.dispatch current tx mt bursts).
-Notation step := (Model.step current tx mt bursts).
-Notation steps := (Model.steps current tx mt bursts).
+Notation send := (send_message current enc_ev tx mt).
+Notation drain := (Model.drain current enc_ev tx mt).
+Notation unbusy := (Model.unbusy current enc_ev tx mt).
+Notation offer := (Model.offer current enc_ev tx mt).
+Notation handle_wake := (Model.handle_wake current enc_ev tx mt bursts).
+Notation dispatch := (Model.dispatch current enc_ev tx mt bursts).
+Notation step := (Model.step current enc_ev tx mt bursts).
+Notation steps := (Model.steps current enc_ev tx mt bursts).
 
 Definition bound (s : st) : N := (if busy (ch s) then finish (ch s) else now s) + m_lat mt.
 
@@ -283,7 +283,8 @@ Qed.
 
 Lemma Ord_offer s o : Good tx mt s -> Ord s -> Ord (offer s o).
 Proof.
-  intros [HC _] HO. unfold Model.offer. apply Ord_sample. destruct (busy (ch s)) eqn:Hb.
+  intros HG0 HO0. unfold Model.offer. apply Ord_sample. apply Good_sample in HG0. apply Ord_sample in HO0.
+  revert HG0 HO0. generalize (sample s). clear s. intros s [HC _] HO. destruct (busy (ch s)) eqn:Hb.
   - apply Ord_send_busy; assumption.
   - pose proof (C_unb _ _ _ HC) as Hu. rewrite Hb in Hu. apply Ord_start; try assumption. apply (C_SI _ _ _ HC).
 Qed.
@@ -327,11 +328,11 @@ Proof.
     assert (Hnu : ~ is_unb x) by (unfold is_unb; rewrite Ed; discriminate).
     pose proof (Ord_fetch_other s x r HS E Hne HO) as HO1. pose proof (Good_fetch_other s x r HG E Hnu) as HG1.
     unfold Model.handle_wake. destruct (nth_error bursts (N.to_nat k)) as [[t offs]|]; [|exact HO1].
-    apply Ord_fold; [apply Good_sample; exact HG1|apply Ord_sample; exact HO1].
+    apply Ord_fold; [exact HG1|exact HO1].
 Qed.
 
 Lemma sched_wakes_kinds bs : forall q0 k x,
-  s_tcur q0 = 0 -> In x (pend (sched_wakes q0 k bs)) -> In x (pend q0) \/ exists k', dec_ev (epay x) = EWake k'.
+  s_tcur q0 = 0 -> In x (pend (sched_wakes enc_ev q0 k bs)) -> In x (pend q0) \/ exists k', dec_ev (epay x) = EWake k'.
 Proof.
   induction bs as [|[t offs] bs IH]; intros q0 k x H0 Hx; cbn [sched_wakes] in Hx; [left; exact Hx|].
   apply IH in Hx; [|rewrite qadd_tcur; exact H0]. destruct Hx as [Hx|Hx]; [|right; exact Hx].
@@ -339,9 +340,9 @@ Proof.
   exists k. cbn [new_ev epay]. apply dec_enc.
 Qed.
 
-Lemma Ord_init oracle : Ord (init bursts oracle).
+Lemma Ord_init oracle : Ord (init enc_ev bursts oracle).
 Proof.
-  assert (Hk : forall x, In x (pend (sched_wakes sp_new 0 bursts)) -> exists k', dec_ev (epay x) = EWake k').
+  assert (Hk : forall x, In x (pend (sched_wakes enc_ev sp_new 0 bursts)) -> exists k', dec_ev (epay x) = EWake k').
   { intros x Hx. apply sched_wakes_kinds in Hx; [|reflexivity]. destruct Hx as [[]|Hx]. exact Hx. }
   destruct (sched_wakes_inv bursts sp_new 0 SI_new eq_refl) as [_ [_ [_ He]]].
   constructor; cbn [init ch q log idle_chan busy finish].
@@ -361,7 +362,7 @@ Qed.
 (* deliveries, in order, are an initial piece of the accepted offers, in order:
    then come the messages in flight, then the queued ones *)
 Theorem zero_jitter_preserves_order oracle n :
-  let s := steps n (init bursts oracle) in
+  let s := steps n (init enc_ev bursts oracle) in
   rev (accepted (log s)) = rev (delivered (log s)) ++ exits (pend (q s)) ++ map fst (buffer (ch s)).
 Proof.
   cbv zeta. pose proof (Good_reachable tx mt bursts oracle n) as HG.
